@@ -300,9 +300,14 @@ impl Buffer {
 
         let layer = &mut self.layers[layer];
         for i in start_line..=end_line {
-            let line = &mut layer.lines[i as usize];
+            // rows below the last written one are not allocated
+            let Some(line) = layer.lines.get_mut(i as usize) else {
+                continue;
+            };
             if line.chars.len() > start_column {
-                line.chars.insert(end_column as usize, AttributedChar::default());
+                if (end_column as usize) <= line.chars.len() {
+                    line.chars.insert(end_column as usize, AttributedChar::default());
+                }
                 line.chars.remove(start_column);
             }
         }
@@ -313,14 +318,19 @@ impl Buffer {
         let end_line = self.get_last_editable_line();
 
         let start_column = self.get_first_editable_column() as usize;
-        let end_column = self.get_last_editable_column() as usize;
+        let end_column = self.get_last_editable_column().max(0) as usize;
 
         let layer = &mut self.layers[layer];
         for i in start_line..=end_line {
-            let line = &mut layer.lines[i as usize];
+            // rows below the last written one are not allocated
+            let Some(line) = layer.lines.get_mut(i as usize) else {
+                continue;
+            };
             if line.chars.len() > start_column {
                 line.chars.insert(start_column, AttributedChar::default());
-                line.chars.remove(end_column + 1);
+                if end_column + 1 < line.chars.len() {
+                    line.chars.remove(end_column + 1);
+                }
             }
         }
     }
